@@ -178,7 +178,15 @@ func solveOne(dir, name, query string, timeoutMs int, wantModel bool) *SolveResu
 			cmd.Run()
 			o := out.String()
 			st := "unknown"
-			first := strings.TrimSpace(strings.SplitN(o, "\n", 2)[0])
+			first := ""
+			for _, l := range strings.Split(o, "\n") {
+				l = strings.TrimSpace(l)
+				if l == "" || strings.HasPrefix(l, "WARNING") {
+					continue // z3 prints pattern warnings before the verdict
+				}
+				first = l
+				break
+			}
 			switch first {
 			case "unsat":
 				st = "unsat"
